@@ -492,8 +492,8 @@ def replay_again(cfg, w, tree):
 
 
 def replay(o, tree):
-    r_ = structure.replay(o, tree)
-    if r_ is not None:
+    r_ = None if o.get("_shared_replay") else structure.replay(dict(o, _shared_replay=True), tree)
+    if r_ is not None and r_.get("reproduced"):
         return r_
     from spec import expr_spec as spec
     cfg = o.get("cfg") or {}
